@@ -19,7 +19,7 @@ func (m *Machine) exec(th *Thread, fr *Frame) {
 		fr.pc++
 	case *ssa.Alloc:
 		c := &Cell{v: m.zero(i.Type().(*types.Pointer).Elem())}
-		if m.raceOn && fr.info.inRepo {
+		if m.raceOn && fr.info.monitor {
 			markMon(c, "")
 		}
 		m.setReg(fr, i, c)
@@ -129,6 +129,9 @@ func (m *Machine) exec(th *Thread, fr *Frame) {
 			idx := m.toIndex(m.operand(fr, i.Index).(*Term), i.Index.Type())
 			m.setReg(fr, i, m.indexString(a, idx))
 		case *MapV:
+			if a != nil && a.sh != nil {
+				m.raceAccess(th, a.sh, false)
+			}
 			k := m.hashKey(m.operand(fr, i.Index))
 			v, ok := a.get(k)
 			if !ok {
@@ -149,6 +152,9 @@ func (m *Machine) exec(th *Thread, fr *Frame) {
 		if mp == nil {
 			m.goPanic("assignment to entry in nil map")
 		}
+		if mp.sh != nil {
+			m.raceAccess(th, mp.sh, true)
+		}
 		kv := m.operand(fr, i.Key)
 		mp.set(m.hashKey(kv), kv, copyValue(m.operand(fr, i.Value)))
 		fr.pc++
@@ -163,7 +169,7 @@ func (m *Machine) exec(th *Thread, fr *Frame) {
 		}
 		et := i.Type().Underlying().(*types.Slice).Elem()
 		cells := m.newCells(et, cp)
-		if m.raceOn && fr.info.inRepo {
+		if m.raceOn && fr.info.monitor {
 			for _, c := range cells {
 				markMon(c, "")
 			}
@@ -172,7 +178,11 @@ func (m *Machine) exec(th *Thread, fr *Frame) {
 		fr.pc++
 	case *ssa.MakeMap:
 		mt := i.Type().Underlying().(*types.Map)
-		m.setReg(fr, i, m.newMap(mt.Key(), mt.Elem()))
+		nm := m.newMap(mt.Key(), mt.Elem())
+		if m.raceOn && fr.info.monitor {
+			nm.sh = &Cell{mon: true}
+		}
+		m.setReg(fr, i, nm)
 		fr.pc++
 	case *ssa.MakeChan:
 		sz := m.concreteInt(m.operand(fr, i.Size), "chan size")
@@ -323,6 +333,9 @@ func (m *Machine) exec(th *Thread, fr *Frame) {
 		case *MapV:
 			it := &mapIter{mp: a}
 			if a != nil {
+				if a.sh != nil {
+					m.raceAccess(th, a.sh, false)
+				}
 				it.keys = m.orderKeys(a)
 			}
 			m.setReg(fr, i, it)
